@@ -29,6 +29,24 @@ def dag_world(n, edges):
     }
 
 
+def twons_world():
+    """the same pipeline mounted under two namespaces with different values: distinct task objects of one class"""
+    bc = families.by_class
+    return {
+        'name': 'twons',
+        'tasks': {
+            'S': {'name': 's', 'params': [families.P('ps', default=0)], 'inputs': [], 'data': 'json'},
+            'Cl': {'name': 'cl', 'params': [], 'inputs': [bc('S')], 'data': 'numpy'},
+            'R': {'name': 'r', 'params': [], 'inputs': [bc('Cl')], 'data': 'dir'},
+        },
+        'configs': {'sub': {'medium': 'json', 'tasks': ['S', 'Cl', 'R'], 'values': {}},
+                    'top': {'medium': 'json', 'tasks': [], 'values': {}, 'uses': [{'config': 'sub', 'as': 'n1'}, {'config': 'sub', 'as': 'n2'}]}},
+        'root': 'top',
+        'context': {'kind': 'dict', 'data': {}, 'for_namespaces': {'n1': {'ps': 1}, 'n2': {'ps': 2}}},
+        'variants': {'v0': []},
+    }
+
+
 def all_dags(n):
     pairs = [(a, b) for b in range(n) for a in range(b)]
     for k in range(len(pairs) + 1):
@@ -73,6 +91,8 @@ def judge(desc, spec):
                 if sorted(obs['run_objs']) != sorted([ex.model.lk(ex.model.slots[op[1]]['model'], r) for r in er['runs']]):
                     out.append(Violation(f'{name}: recompute=True did not run each forced task exactly once',
                                          f'history {hist}: ran {obs["runs"]}, model predicts {er["runs"]} (any order)', case))
+        elif op[0] == 'inspect' and obs.get('error'):
+            out.append(Violation(f'{name}: inspection raised', f'history {hist}: {obs["error"]}', case))
         elif op[0] == 'inspect':
             if obs['forced'] != exp['forced']:
                 diff = {k: (obs['forced'][k], exp['forced'][k]) for k in obs['forced'] if obs['forced'][k] != exp['forced'][k]}
@@ -124,6 +144,27 @@ def _part_a_dag(args):
     return res
 
 
+def _namemode_templates(_):
+    """name mode, two configs whose names extend each other on one directory: forcing / deleting through one chain must not
+    touch the other chain's results (every force set x flags x which chain forces)"""
+    import tcv
+
+    tcv.quiet_library()
+    desc = families.namemode()
+    jf = judge(desc, None)
+    res = Result()
+    for slot in (0, 1):
+        for fs in (['a'], ['b'], ['c'], ['a', 'c']):
+            for rec, dele in product((False, True), repeat=2):
+                h = [['new', 0, 'exp'], ['value', 0, 'c'], ['new', 1, 'exp_big'], ['value', 1, 'c'], ['cforce', slot, fs, rec, dele], ['inspect', 0], ['inspect', 1],
+                     ['restart'], ['new', 0, 'exp'], ['new', 1, 'exp_big'], ['inspect', 0], ['inspect', 1], ['value', 0, 'c'], ['value', 1, 'c'], ['value', 1, 'a'], ['value', 0, 'a']]
+                vs, c, ov = histories.run_history(desc, h, jf, parameter_mode=False)
+                res.add('evaluations')
+                res.add('transitions', len(h))
+                res.violations.extend(vs[:2])
+    return res
+
+
 def _fwd(n):
     return list(range(n))
 
@@ -144,6 +185,7 @@ def run(tier, seed):
     for r in pmap(_part_a_dag, jobs):
         res.merge(r)
     res.coverage['part_a_dags'] = len(jobs)
+    res.merge(_namemode_templates(None))
     # Part B: histories
     plan = []
     chain3 = dag_world(3, {(0, 1), (1, 2)})
@@ -159,6 +201,15 @@ def run(tier, seed):
                          delete_flags=(False, True), cforce_flags=((False, False), (True, False), (False, True)))
         d0, d1 = (3, 4) if tier == 'quick' else (3, 5)
         plan.append((desc, sp, d0, d1))
+    desc = twons_world()
+    sp = specs.build(desc, variants=['v0'], ops=('new', 'value', 'cforce', 'inspect'), slots=1, tasks=['n1::r', 'n2::r', 'n2::cl'],
+                     force_sets=[['n1::s'], ['n2::s'], ['n1::cl', 'n2::s']], cforce_flags=((False, False), (True, False), (False, True)))
+    plan.append((desc, sp, 3, 4 if tier == 'quick' else 5))
+    # name mode: results stored under config names that extend each other (exp / exp_big) in one directory
+    desc = families.namemode()
+    sp = specs.build(desc, ops=('new', 'value', 'cforce', 'inspect', 'restart'), slots=2, tasks=['a', 'c'], force_sets=[['a'], ['b']],
+                     cforce_flags=((False, True), (True, False)), parameter_mode=False)
+    plan.append((desc, sp, 3, 4 if tier == 'quick' else 5))
     for desc, sp, d0, d1 in plan:
         r = histories.explore(desc, sp, 'tcv.checks.c07:judge', d0, d1, seed=seed)
         cov = r.coverage
@@ -183,5 +234,5 @@ def replay(case):
 
     tcv.quiet_library()
     desc = case['desc']
-    vs, c, ov = histories.run_history(desc, case['hist'], judge(desc, None))
+    vs, c, ov = histories.run_history(desc, case['hist'], judge(desc, None), parameter_mode=desc['name'] != 'namemode')
     return vs
